@@ -1,13 +1,14 @@
 (* C06 -- constants of Gen/Consts.v (rewritten from the source of /repo by tools/genconsts on
-   every run) compared with literals.  Used by: the predicate C06.spec (standard stage directories, static /dev names, built-in lines as member sources), C06.wf (symlink chain bound) and Model/StageList.v.
+   every run) compared with literals, one lemma per constant so that the failing line names it.
+   Used by: the predicate C06.spec (standard stage directories, static /dev names, built-in lines as member sources), C06.wf (symlink chain bound) and Model/StageList.v.
    A changed constant makes this file fail to build; the check then reports
    "proof obligation no longer checks" for Properties/C06.v (C06_constants_pinned) instead of
-   letting model, predicate and code move together unnoticed. *)
+   letting model, predicate and code move together unnoticed.  The literals are repeated, with
+   their sources, in the statement of C06_constants_pinned. *)
 From LC Require Import Lib.Bytes Gen.Consts.
 Local Open Scope string_scope.
 
-Lemma c06_constants_pinned :
-  (* frozen from the reviewed tree (the manual names no list; "the standard stage directories" of the property text) *)
+Lemma pin_D_StandardStageDirs :
   D_StandardStageDirs = bs "dir /boot
 dir /dev
 dir /home
@@ -27,8 +28,10 @@ dir /var/lock
 symlink /var/run
 dir /var/spool
 dir /var/tmp
-" /\
-  (* frozen from the reviewed tree (built-in add-files lines read before the user's) *)
+".
+Proof. (vm_compute; reflexivity) || fail "D_StandardStageDirs of the source tree differs from the reviewed literal (C06_constants_pinned)". Qed.
+
+Lemma pin_D_StageMagic :
   D_StageMagic = bs "file /etc/csh.env
 dir /etc/env.d/*
 file /etc/fstab
@@ -56,10 +59,14 @@ file /usr/share/info/dir
 file /var/cache/*
 dir /var/lib/gentoo/*
 dir /var/lib/portage/*
-" /\
-  (* frozen from the reviewed tree (directories whose recorded symlinks are not followed when missing links are recovered) *)
-  D_DoNotTraverse = bs "/boot /dev /home /media /mnt /proc /run /usr/portage /sys /var/db cache tmp" /\
-  (* frozen from the reviewed tree ("static /dev nodes" of the property text: names, types, major:minor, gid, mode) *)
+".
+Proof. (vm_compute; reflexivity) || fail "D_StageMagic of the source tree differs from the reviewed literal (C06_constants_pinned)". Qed.
+
+Lemma pin_D_DoNotTraverse :
+  D_DoNotTraverse = bs "/boot /dev /home /media /mnt /proc /run /usr/portage /sys /var/db cache tmp".
+Proof. (vm_compute; reflexivity) || fail "D_DoNotTraverse of the source tree differs from the reviewed literal (C06_constants_pinned)". Qed.
+
+Lemma pin_D_DevDirSetup :
   D_DevDirSetup = bs "node /dev/console dev=c5:1 mod=0600
 node /dev/core dev=c1:6 mod=0600
 symlink /dev/fd targ=../proc/self/fd
@@ -89,8 +96,10 @@ node /dev/tty dev=c5:0 gid=0 mod=0666
 node /dev/tty0 dev=c4:0 gid=5 mod=0620
 node /dev/urandom dev=c1:9 mod=0644
 node /dev/zero dev=c1:5 mod=0666
-" /\
-  (* frozen from the reviewed tree (numbered siblings of the static nodes: /dev/sda 15 = sda1..sda15) *)
+".
+Proof. (vm_compute; reflexivity) || fail "D_DevDirSetup of the source tree differs from the reviewed literal (C06_constants_pinned)". Qed.
+
+Lemma pin_D_DevDirExtend :
   D_DevDirExtend = bs "/dev/hda 32
 /dev/input/event0 31
 /dev/input/js0 31
@@ -100,7 +109,11 @@ node /dev/zero dev=c1:5 mod=0666
 /dev/sdc 15
 /dev/sdd 15
 /dev/tty0 63
-" /\
-  (* frozen from the reviewed tree *)
+".
+Proof. (vm_compute; reflexivity) || fail "D_DevDirExtend of the source tree differs from the reviewed literal (C06_constants_pinned)". Qed.
+
+Lemma pin_D_MaxSymlinkChain :
   D_MaxSymlinkChain = 5%N.
-Proof. repeat split; vm_compute; reflexivity. Qed.
+Proof. (vm_compute; reflexivity) || fail "D_MaxSymlinkChain of the source tree differs from the reviewed literal (C06_constants_pinned)". Qed.
+
+Definition c06_constants_pinned := conj pin_D_StandardStageDirs (conj pin_D_StageMagic (conj pin_D_DoNotTraverse (conj pin_D_DevDirSetup (conj pin_D_DevDirExtend pin_D_MaxSymlinkChain)))).
